@@ -5,6 +5,8 @@ import Heathcliff.Proofs.C01P
 import Heathcliff.Proofs.C01O
 import Heathcliff.Proofs.C01J
 import Heathcliff.Proofs.GenScalingSpec
+import Heathcliff.Proofs.GenRns8
+import Heathcliff.Proofs.GenRns19
 
 /- Property theorems only (statements verbatim; proofs are the helper lemmas of Heathcliff/Proofs). -/
 namespace HC.C01
@@ -404,5 +406,12 @@ theorem ckks_encrypt_decrypt_of_fresh : type_of% @HC.ckks_encrypt_decrypt_of_fre
 theorem ckks_encrypt_decrypt_pk : type_of% @HC.ckks_encrypt_decrypt_pk := @HC.ckks_encrypt_decrypt_pk
 theorem ckks_encrypt_decrypt_sk : type_of% @HC.ckks_encrypt_decrypt_sk := @HC.ckks_encrypt_decrypt_sk
 theorem ckks_encrypt_decrypt_pk_sp : type_of% @HC.ckks_encrypt_decrypt_pk_sp := @HC.ckks_encrypt_decrypt_pk_sp
+
+/-! ### translator tie, phase 4k: the two RNS back ends of decryption on the code GENERATED from src/util/rns.rs (Proofs/GenRns8.lean, GenRns19.lean) -/
+
+/-- BFV: the generated `RNSTool::decrypt_scale_and_round` returns `round(t·x̃/Q) mod t` under the BEHZ γ-condition (see `C10.gen_decrypt_scale_and_round_rounds`) -/
+theorem gen_decrypt_scale_and_round_rounds : type_of% @HC.gr_decrypt_scale_and_round_rounds := @HC.gr_decrypt_scale_and_round_rounds
+/-- BGV: the generated `RNSTool::decrypt_mod_t` returns the centred residue modulo t, provided the erased f64 rounding is exact (see `C10.gen_decrypt_mod_t_centred`) -/
+theorem gen_decrypt_mod_t_centred : type_of% @HC.gr_decrypt_mod_t_centred := @HC.gr_decrypt_mod_t_centred
 
 end HC.C01
